@@ -85,6 +85,7 @@ class Module:
         # Set at the end of elaboration.
         # For most modules this will be `self`.
         self._elaborated: Optional[Module] = None
+        self._elab_failure: Optional[Exception] = None  # The error of a failed elaboration attempt, if any
 
         # IOs as captured before bundle-flattening.
         # Bundle-valued ports are flattened into `ports` and removed from `bundles`, but need to be kept *somewhere* afterwards.
